@@ -344,6 +344,40 @@ def unit_sac_targets(S):
             what="with training abstracted to the identity, one iteration moves the targets by exactly one Polyak step towards the (new) online critics")
 
 
+def native_sac_gating_replay(autotune, what):
+    """R1: the counter-model's (policy_frequency, num_steps, iteration_count), then a small grid, through the real SAC.sac_train with real networks."""
+    def replay(model):
+        from contracts import _native as N
+        cands = []
+        try:
+            F, T, it = int(kit.model_float(model, "policy_frequency", 0)), int(kit.model_float(model, "T", 0)), int(kit.model_float(model, "iteration_count", -1))
+            if F >= 1 and T >= 1 and it >= 0:
+                cands.append((F, T, it))
+        except Exception:
+            pass
+        cands += [(F, T, it) for F in (2, 3, 4) for T in (1, 2, 3, 4) for it in range(0, 2 * F + 1)]
+        tried = 0
+        for F, T, it in cands:
+            if what != "fixed" and it % F == 0:
+                continue
+            if tried >= 24:
+                break
+            tried += 1
+            fx = N.sac_fixture(num_steps=T, policy_frequency=F, autotune=autotune)
+            newpol, nost, _, _, _, nla, naost, _ = N.sac_train(fx, it)
+            if what == "actor":
+                d = max(N.max_abs_diff(newpol, fx["policy"]), N.max_abs_diff(nost, fx["opt_state"]))
+            else:
+                d = max(abs(float(nla) - float(fx["log_alpha"])), N.max_abs_diff(naost, fx["alpha_opt_state"]))
+            if d > 0:
+                return dict(reproduced=True, route="R1 (real SAC.sac_train, real MLPSACPolicy / SoftQNetwork / adam, random full buffer)",
+                            inputs=dict(policy_frequency=F, num_steps=T, iteration_count=it, autotune=autotune, batch_size=4),
+                            observed={("actor_and_opt_state_max_abs_change" if what == "actor" else "temperature_and_opt_state_max_abs_change"): d,
+                                      "iteration_count mod policy_frequency": it % F})
+        return dict(reproduced=False, note=f"{tried} native configurations: no change off schedule")
+    return replay
+
+
 def unit_sac_gating(S):
     """sac_train: actor and temperature change only when iteration_count mod policy_frequency == 0; temperature only with autotune."""
     from contracts import C07
@@ -363,12 +397,12 @@ def unit_sac_gating(S):
         hyp = [Fc >= 1, it >= 0, Tz >= 1]
         off = it % Fc != 0
         tag = f"sac_train[autotune={autotune}]"
-        S.prove(f"{tag}/actor-frozen-off-schedule", ctx, z3.Implies(off, z3.And(kit.tree_eq(newpol, d["pol"]), kit.tree_eq(nost, d["ost"]))), hyps=hyp, function=fn,
+        S.prove(f"{tag}/actor-frozen-off-schedule", ctx, z3.Implies(off, z3.And(kit.tree_eq(newpol, d["pol"]), kit.tree_eq(nost, d["ost"]))), hyps=hyp, function=fn, replay=native_sac_gating_replay(autotune, "actor"),
                 what="iteration_count mod policy_frequency != 0 => policy' = policy and actor opt_state' = opt_state (for every num_steps)")
-        S.prove(f"{tag}/temperature-frozen-off-schedule", ctx, z3.Implies(off, z3.And(ir.seq(nla.scalar(), d["lac"]), kit.tree_eq(naost, d["aost"]))), hyps=hyp, function=fn,
+        S.prove(f"{tag}/temperature-frozen-off-schedule", ctx, z3.Implies(off, z3.And(ir.seq(nla.scalar(), d["lac"]), kit.tree_eq(naost, d["aost"]))), hyps=hyp, function=fn, replay=native_sac_gating_replay(autotune, "temperature"),
                 what="off schedule the temperature and its optimiser state are unchanged")
         if not autotune:
-            S.prove(f"{tag}/temperature-fixed-without-autotune", ctx, z3.And(ir.seq(nla.scalar(), d["lac"]), kit.tree_eq(naost, d["aost"])), hyps=hyp, function=fn,
+            S.prove(f"{tag}/temperature-fixed-without-autotune", ctx, z3.And(ir.seq(nla.scalar(), d["lac"]), kit.tree_eq(naost, d["aost"])), hyps=hyp, function=fn, replay=native_sac_gating_replay(autotune, "fixed"),
                     what="autotune=False: log_alpha' = log_alpha on every iteration")
         else:
             names = C07.uf_names_of([nla], ctx)
